@@ -100,6 +100,7 @@ func c20Handlers() []c20Handler {
 		{"DELETE-session", plain("DELETE", "/sessions/"+url.PathEscape(c20Sess), "", false)},
 		{"LIST-sessions", plain("GET", "/sessions/", "", false)},
 		{"GET-metadata", plain("GET", "/metadata", "", false)},
+		{"SSO-from-X-whose-metadata-validity-has-passed", form("/sso", sso("https://sp-x.example.com/metadata"), true)},
 	}
 }
 
@@ -115,6 +116,9 @@ func c20Server() (*samlidp.Server, *samlidp.MemoryStore) {
 	var md saml.EntityDescriptor
 	xml.Unmarshal(c19Metadata("A"), &md)
 	put("/services/s1", samlidp.Service{Name: "s1", Metadata: md})
+	var mdx saml.EntityDescriptor
+	xml.Unmarshal(c19Metadata("X"), &mdx)
+	put("/services/s2", samlidp.Service{Name: "s2", Metadata: mdx})
 	put("/shortcuts/sc1", samlidp.Shortcut{Name: "sc1", ServiceProviderID: c19EntA})
 	put("/sessions/"+c20Sess, saml.Session{ID: c20Sess, NameID: "alice@example.com", UserName: "alice", CreateTime: samlgen.T0, ExpireTime: samlgen.T0.Add(time.Hour), Index: "idx"})
 	kp := samlgen.Key("idpec")
